@@ -1290,21 +1290,20 @@ class dictable(Dict):
         zs = self[z]
         y_ = y if is_str(y) else '_columns'
         rs = type(self)(xys, x + (y_,))        
-        ys = rs[as_list(y_)].listby(y_)
-        y2id = dict(zip(ys[y_], range(len(ys))))
+        ys, yrows = rs._listby((y_,)) ## one column per distinct y (two nan objects are one y), found by row rather than by looking the y value up in a dict
+        row2y = {j : k for k, js in enumerate(yrows) for j in js}
         xs, yids = rs._listby(x)
         res = [[None for _ in range(len(ys))] for _ in range(len(xs))]
         for i in range(len(xs)):
             for j in yids[i]:
-                xy = xys[j]
-                k = y2id[xy[-1]]
+                k = row2y[j]
                 value = [zs[id_] for id_ in ids[j]]
                 if agg:
                     for a in agg:
                         value = a(value)
                 res[i][k] = value
         dx = type(self)(xs, x)
-        dy = type(self)(res, list(y2id.keys()))
+        dy = type(self)(res, [key[0] for key in ys])
         dx.update(dy)
         return dx
     
